@@ -1,6 +1,7 @@
 package main
 
 import (
+	"math"
 	"encoding/hex"
 	"encoding/json"
 	"fmt"
@@ -217,6 +218,23 @@ func corpus(r *rand.Rand) map[string][][]byte {
 	return out
 }
 
+var wildPool = []float64{0, 1, -1, 0.5, 1e300, -1e300, 1e-300, 1e150, -1e150, 1e-150, math.MaxFloat64, -math.MaxFloat64, 5e-324, 3, 1e21,
+	123456789.12345679, 0.30000000000000004, 2.2250738585072014e-308}
+
+func wildValue(r *rand.Rand) float64 {
+	switch r.Intn(3) {
+	case 0:
+		return wildPool[r.Intn(len(wildPool))]
+	case 1:
+		return float64(r.Intn(2001) - 1000)
+	}
+	v := math.Float64frombits(r.Uint64())
+	if math.IsNaN(v) || math.IsInf(v, 0) {
+		return 1
+	}
+	return v
+}
+
 var countValues = [][]byte{{0, 0, 0, 0}, {1, 0, 0, 0}, {255, 255, 255, 127}, {0, 0, 0, 128}, {255, 255, 255, 255}, {0, 0, 0, 1}, {127, 255, 255, 255}}
 
 func varintOf(k int) []byte {
@@ -322,6 +340,51 @@ func decodeGen(r *rand.Rand, n int, tier string, emit func(Case)) {
 	}
 	for ; i < n; i++ {
 		f := fmts[r.Intn(4)]
+		if i%5 == 4 {
+			// well-formed encodings of areal geometries whose ordinates mix every magnitude (1e-300 .. 1e308, subnormals,
+			// integers): the validating decoders run ring simplicity, hole nesting and member interaction at the limits of
+			// float64, where cross products overflow to NaN or underflow to zero
+			put3 := func(g geom.Geometry) {
+				switch r.Intn(3) {
+				case 0:
+					put("wkt", []byte(g.AsText()))
+				case 1:
+					put("wkb", g.AsBinary())
+				default:
+					if b, err := g.MarshalJSON(); err == nil {
+						put("geojson", b)
+					} else {
+						put("wkt", []byte(g.AsText()))
+					}
+				}
+			}
+			var polys []geom.Polygon
+			for k, np := 0, 1+r.Intn(3); k < np; k++ {
+				var rings []geom.LineString
+				for h, nh := 0, 1+r.Intn(3); h < nh; h++ {
+					var fs []float64
+					for j, m := 0, 3+r.Intn(3); j < m; j++ {
+						fs = append(fs, wildValue(r), wildValue(r))
+					}
+					fs = append(fs, fs[0], fs[1])
+					rings = append(rings, geom.NewLineString(geom.NewSequence(fs, geom.DimXY)))
+				}
+				polys = append(polys, geom.NewPolygon(rings))
+			}
+			switch r.Intn(3) {
+			case 0:
+				put3(polys[0].AsGeometry())
+			case 1:
+				put3(geom.NewMultiPolygon(polys).AsGeometry())
+			default:
+				ms := []geom.Geometry{geom.NewMultiPolygon(polys).AsGeometry()}
+				for _, p := range polys {
+					ms = append(ms, p.ExteriorRing().AsGeometry())
+				}
+				put3(geom.NewGeometryCollection(ms).AsGeometry())
+			}
+			continue
+		}
 		switch r.Intn(12) {
 		case 0: // arbitrary bytes
 			ln := r.Intn(64)
